@@ -693,7 +693,7 @@ fn run_e5d(args: &Args, cur_prop: &str, index: u64, run_seed: u64, dir: &std::pa
     let grid: [u64; 12] = [0, 1, 2, 5, 11, 12, 50, 111, 112, 500, 1000, 1111];
     let mut rng = prng::Prng::new(run_seed);
     let release = if (index as usize) < 2 * grid.len() { grid[(index as usize) % grid.len()] } else { *rng.pick(&[rng.clone().below(1001), 5_000, 50_000, 2_000_000_000]) };
-    let kind = if index % 13 == 12 { 1 } else { 0 };
+    let kind = if index % 13 == 12 { 1 } else if index % 7 == 6 { 2 } else { 0 };
     let via_rln = index % 2 == 1;
     let _ = args;
     let o = e5::run_clock(dir, release, kind, via_rln, run_seed);
